@@ -43,6 +43,8 @@ var c14Ops = []string{
 	// a client that resets the connection after the first byte of the body (environment fault):
 	// nothing may change, and the answers to every later request are checked as usual
 	"abort.list", "abort.get #1",
+	// attachment numbers that do not name an attachment of an existing message
+	"web.attach-bad #1",
 }
 
 type c14Case struct {
@@ -311,6 +313,23 @@ func c14Exec(c *fw.Ctx, cas c14Case, from int) (key string, extend, nontrivial b
 			}
 			if r.Status != 200 || string(r.Body) != m.Body {
 				fail(vk(kind+"|differs"), fmt.Sprintf("%s answered %d with %d bytes; the store holds %d bytes", op, r.Status, len(r.Body), len(m.Body)))
+			}
+		case "web.attach-bad":
+			id, m, kind := resolve(ref)
+			for _, num := range []string{"-1", "1", "99", "x", "4294967296", "-9223372036854775808", "0x0", "+0"} {
+				r := do("GET", api("web")+"/"+id+"/attach/"+num+"/a.txt", nil)
+				if !check {
+					continue
+				}
+				if r.Panic != nil {
+					fail(vk(kind+"|panic"), fmt.Sprintf("attachment number %q: handler panicked (net/http would drop the connection): %v", num, r.Panic))
+					break
+				}
+				// (a malformed number for a missing message may be refused as malformed or as missing)
+				if r.Status == 200 && (m == nil || num != "+0") {
+					fail(vk(kind+"|served"), fmt.Sprintf("attachment number %q (the message has exactly one attachment, number 0) was served with status 200: %q", num, clipS(string(r.Body), 60)))
+					break
+				}
 			}
 		case "web.html", "web.attach":
 			id, m, kind := resolve(ref)
